@@ -23,7 +23,10 @@ func withSpareBuf(b []byte, spare int, fill byte) []byte {
 	return buf[:len(b)]
 }
 
+var c15ModelPoints [8]int
+
 func runC15(c0 *h.Ctx) {
+	c15ModelPoints = [8]int{}
 	// the reference must agree with crypto/ed25519 on public keys before it is used as a bridge
 	B := ref.EdBase()
 	c0.Parallel(8, func(part int, c *h.Ctx) {
@@ -90,6 +93,12 @@ func runC15(c0 *h.Ctx) {
 					}
 					if !bytes.Equal([]byte(pkB), B.Mul(bsecret).Encode()) {
 						c.Violation("the blinded public key is [a * r mod L]B (closed form of the model)", det)
+					}
+					// ... and computed entirely inside the Coq model: decoding, [factor]A by double-and-add over the proved field
+					// arithmetic, encoding (one per part in the quick tier: two seconds of model time each)
+					if c15ModelPoints[part] < 1 || c.Thorough() && c15ModelPoints[part] < 4 {
+						c15ModelPoints[part]++
+						c.Case("blind:public-key-in-the-model", true, "pt_mul", [][]byte{leBytes(factor, 32), pub}, [][]byte{h.StOK, pkB})
 					}
 					// --- unblinding inverts blinding ------------------------------------------------------------------
 					pkU, err := ed25519.UnblindPublicKeyWithContext(pkB, blindArg, ctxArg)
